@@ -303,6 +303,14 @@ def gen_model(rng, max_records=12):
         model['prlen'] = rng.pick([65535, 65535, 65534, 65530, 65524, 65523, 65520])
         first = {'key': rng.getrandbits(32), 'len': max_payload(model) + rng.pick([0, 0, 1, 5, -1, -3])}
         model['records'] = [first] + [{'key': r['key'], 'len': min(r['len'], 300)} for r in model['records'][:3]]
+    if rng.chance(0.015):
+        # boundary: a file WITHOUT markers whose first twelve bytes read as a TIF marker (type 0 or 1, back pointer 0): a first
+        # physical record of 256 bytes with no trailer and attributes 0, whose data begin with four zero bytes
+        model.update(tif='none', rec=False, file=None, chk=False, prlen=rng.pick([256, 512, 1024, 4096]))
+        model.pop('rec_start', None)
+        body = hashlib.shake_128(f'lookalike:{rng.getrandbits(32)}'.encode()).digest(248)
+        first = {'payload': (b'\x00\x00\x00\x00' + body).hex(), 'len': 252}
+        model['records'] = [first] + [{'key': r['key'], 'len': min(r['len'], 300)} for r in model['records'][:3] if 'key' in r]
     fix_reversed(model)
     return model
 
